@@ -62,6 +62,8 @@ for line in open('/var/tmp/seedres/queue.log'):
     m = re.match(r"=== seed4 (C\d+/\d) -> (.*)", line)
     if m:
         cur = m.group(1); first.setdefault(cur, {}); last.setdefault(cur, {}); continue
+    if line.startswith('=== '):
+        cur = None; continue
     m = re.match(r"(OK|VIOLATION) property=(C\d+)(.*)", line)
     if m and cur:
         v = ('VIOLATION' + (' no-failing-input-found' if 'no-failing-input-found' in m.group(3) else ' with failing input')) if m.group(1) == 'VIOLATION' else 'OK (missed)'
